@@ -299,7 +299,7 @@ class Check(core.PropertyCheck):
 
     def model_runs(self, ctx):
         c, _, _ = self._consts("small")
-        small = ctx.model_check(self.MODEL, dict(c, MaxOps=2 if ctx.quick else 3), dump=True)
+        small = ctx.model_check(self.MODEL, dict(c, MaxOps=2 if ctx.quick else 3), dump=True, timeout=1200)
         if ctx.quick:
             return [small]
         big, _, _ = self._consts("big")
@@ -341,7 +341,7 @@ class Check(core.PropertyCheck):
         behs = [(b, pool, fx, "model") for b in g.edge_cover(ctx.rng, max_len=12, tail=3)]
         big, bpool, bfx = self._consts("big")
         sims, _ = ctx.simulate(self.MODEL, dict(big, MaxOps=8 if ctx.quick else 12), num=400 if ctx.quick else 6000,
-                               depth=10 if ctx.quick else 14)
+                               depth=10 if ctx.quick else 14, timeout=1200)
         behs += [(b, bpool, bfx, "simulate") for b in sims]
         for i, (b, p, f0, src) in enumerate(behs):
             ops, ff = self._ops(b)
